@@ -23,6 +23,8 @@ def run(chk):
              "is re-pointed to the candidate whenever one is kept")
     chk.rule("EPS.threshold", "every comparison of a squared distance with the squared epsilon in SimplifyPath and RDP draws the line at "
              "'removable iff distance <= epsilon' (all sites agree)")
+    chk.rule("NEIGHBOURS.fresh", "SimplifyPath: after a removal the two distances next to the gap are recomputed from the vertices' own surviving "
+             "neighbours (one loop iteration interpreted on a generic ring, both outcomes of the smaller-distance test)")
     chk.rule("ERASE", "StripDuplicates calls only erase / pop_back on its path")
     for cfg in cfgs:
         db = AstDB(cfg)
@@ -32,9 +34,11 @@ def run(chk):
         e11.rule_pinned_ends(db, chk, cfg)
         e11.rule_trim_last_kept(db, chk, cfg)
         e11.rule_eps_threshold(db, chk, cfg)
+        e11.rule_simplify_neighbours(db, chk, cfg)
     n = len(cfgs)
     chk.floor("MEMBER", 12 * n)
     chk.floor("MONO", 3 * n)
+    chk.floor("FORWARD", 4 * n)
     chk.floor("ERASE", 2 * n)
     chk.floor("END.pinned", 6 * n)
     chk.explanation = (
